@@ -210,6 +210,11 @@ def translator_validation(ctx, count):
     if dis: raise CheckInconclusive('encoding unsound: mirsym (concrete mode) and native retain disagree on %d of %d registries; first: %s' % (len(dis), count, json.dumps(dis[0])[:1500]))
 
 
+PTEMPL = [[{'kind': 5, 'nparams': 2, 'lens': [0, 0, 0]}, {'kind': 5, 'nparams': 2, 'lens': [0, 0, 0]}],
+          [{'kind': 5, 'nparams': 0, 'lens': [0, 0, 0]}, {'kind': 2, 'nparams': 3, 'lens': [0, 0, 0]}],
+          [{'kind': 5, 'nparams': 1, 'lens': [0, 0, 0]}, {'kind': 5, 'nparams': 0, 'lens': [0, 0, 0]}, {'kind': 0, 'nparams': 2, 'lens': [1, 0, 0]}]]
+
+
 def run(ctx):
     T = ctx.thorough()
     cexs = []
@@ -235,6 +240,11 @@ def run(ctx):
             ctx.obligations['retain oracle, n=%d vec<=%d params<=%d (%d paths)' % (n, vc, pc, sum(h.kinds.values()))] = 'unsat' if not h.kinds.get('cex') else 'sat'
         if len(cexs) > 20: break
     if not cexs and not set(range(8)) <= kinds_seen: raise CheckInconclusive('vacuity: not all 8 TypeDef arms reached: %s' % kinds_seen)
+    # several type parameters per type (present / absent in every combination) on registries where ids shift: fixed shapes, ids and filter symbolic
+    for j, tmpl in enumerate(PTEMPL if not cexs else []):
+        h = run_harness(ctx, 'retain-params-%d' % j, body_retain(len(tmpl), 1, 3, template=tmpl), models=MODELS_C10)
+        cexs += [r for r in h.results if r['kind'] == 'cex']
+        ctx.obligations['retain oracle, %d entries with %s type parameters each, every presence combination (%d paths)' % (len(tmpl), [x['nparams'] for x in tmpl], sum(h.kinds.values()))] = 'unsat' if not h.kinds.get('cex') else 'sat'
     ntempl = 400 if T else 40
     for t in range(ntempl if not cexs else 0):
         n = 3 if t % 2 == 0 else 4
